@@ -327,10 +327,54 @@ fn unknown_strategy() -> impl Strategy<Value = PhraseCase> {
     })
 }
 
+// ---------------------------------------------------------------- (f) a valid phrase with words added or removed
+
+/// A VALID phrase of one of the five lengths with 1..=16 list words appended, prepended or both, with
+/// its tail cut off, or two valid phrases glued together: the word count (or the checksum) is wrong
+/// although a valid mnemonic is embedded. Catches implementations that read only a prefix/suffix.
+fn embedded_strategy() -> impl Strategy<Value = PhraseCase> {
+    (entropy_strategy(), entropy_strategy(), crate::gen::tape(64)).prop_map(|(e, e2, tape)| {
+        let mut u = crate::gen::U::new(&tape);
+        let mut words: Vec<&str> = bip39::encode_words(&e);
+        let extra = |u: &mut crate::gen::U| -> Vec<&'static str> {
+            let n = 1 + u.below(16);
+            (0..n).map(|_| bip39::word(u.below(2048) as u16)).collect()
+        };
+        match u.below(6) {
+            0 => words.extend(extra(&mut u)),
+            1 => {
+                let mut w = extra(&mut u);
+                w.extend(words);
+                words = w;
+            }
+            2 => {
+                let mut w = extra(&mut u);
+                w.extend(words);
+                w.extend(extra(&mut u));
+                words = w;
+            }
+            3 => {
+                let cut = 1 + u.below(words.len().min(13));
+                words.truncate(words.len() - cut);
+            }
+            4 => words.extend(bip39::encode_words(&e2)),
+            _ => {
+                // repeat the phrase's own last or first word
+                if u.bool() {
+                    words.push(words[words.len() - 1]);
+                } else {
+                    words.insert(0, words[0]);
+                }
+            }
+        }
+        PhraseCase { phrase: words.join(" ") }
+    })
+}
+
 // ---------------------------------------------------------------- run
 
 pub fn run(ctx: &mut Ctx) {
-    ctx.rule = "phrases rendered from (a) entropy of the five sizes x {uniform, all-0, all-1, single bit set/clear, periodic} with ASCII white-space layouts, (b) every word in every position of every length (184320 valid phrases, exhaustive), (c)/(d) for every word count 1..=40 a random prefix followed by each of the 2048 final words (so the checksum cannot mask a wrong length table), plus empty/blank phrases, (e) valid phrases with 1-2 non-words. Oracle: bit-string BIP-39 reference with its own word list: accept <=> valid; accepted phrases print canonically, report their word count and re-parse. Non-trivial: >= 2 distinct words and not a unit-test vector; distinct by phrase text.".into();
+    ctx.rule = "phrases rendered from (a) entropy of the five sizes x {uniform, all-0, all-1, single bit set/clear, periodic} with ASCII white-space layouts, (b) every word in every position of every length (184320 valid phrases, exhaustive), (c)/(d) for every word count 1..=40 a random prefix followed by each of the 2048 final words (so the checksum cannot mask a wrong length table), plus empty/blank phrases, (e) valid phrases with 1-2 non-words, (f) valid phrases with 1..16 list words appended/prepended/both, with their tail cut off, repeated end words, or two valid phrases glued. Oracle: bit-string BIP-39 reference with its own word list: accept <=> valid; accepted phrases print canonically, report their word count and re-parse. Non-trivial: >= 2 distinct words and not a unit-test vector; distinct by phrase text.".into();
     ctx.assumptions = vec![
         "sha2::Sha256 is correct".into(),
         "harness/data/bip39-english.txt is the canonical BIP-39 English list (sha256 pinned in code)".into(),
@@ -372,6 +416,7 @@ pub fn run(ctx: &mut Ctx) {
     ctx.run_cases("blank", &blanks, judge_case);
 
     ctx.run_prop("unknown", t.pick(20_000, 200_000), unknown_strategy, judge_case);
+    ctx.run_prop("embedded", t.pick(20_000, 200_000), embedded_strategy, judge_case);
 
     crate::fuzz::run_for(ctx);
     for l in bip39::LENGTHS {
@@ -384,7 +429,7 @@ pub fn run(ctx: &mut Ctx) {
 
 pub fn replay(sub: &str, case: &Value) -> Option<Verdict> {
     match sub {
-        "valid" | "unknown" | "blank" | "phrase" => Some(replay_as::<PhraseCase>(case, judge_case)),
+        "valid" | "unknown" | "blank" | "phrase" | "embedded" => Some(replay_as::<PhraseCase>(case, judge_case)),
         "wordpos" => Some(replay_as::<WordPos>(case, judge_wordpos)),
         "lastword" => Some(replay_as::<LastWord>(case, judge_lastword)),
         _ => None,
